@@ -51,7 +51,8 @@ var verifGoHookPtr atomic.Pointer[func(*Interpreter, int)]
 
 // VerifSetGoStart installs (or, with nil, removes) the monitor of goroutines started by a go
 // statement on a function value. It is called in the new goroutine with stage 0 when the goroutine
-// begins, 1 when it is about to call the function, 2 when the function has returned.
+// begins, 1 when it is about to call the function, 2 when the function has returned. Stage 3 is
+// reported by every function wrapper between the two reads which decide the run id of the call.
 func VerifSetGoStart(fn func(*Interpreter, int)) {
 	if fn == nil {
 		verifGoHookPtr.Store(nil)
